@@ -78,15 +78,15 @@ def slices(tier):
             for k, h, p, sc, pto in itertools.product(KINDS, HEAVY, PROCS, core_schemes, [0, 1])
             if not (sc.startswith(("FFN0", "FONLL-FFN0")) and pto == 1 and sc[-1] != "3" and k in XS_KINDS)
         ]
-        s["S_core_pto23_nf3"] = [
+        s["S_core_pto23"] = [
             _cell(k, h, p, canon[p], sc, pto, 0, "central")
-            for k, h, p, sc, pto in itertools.product(
-                SF_KINDS, ["light", "total", "charm"], PROCS, ["ZM-VFNS", "FFNS3", "FFN03"], [2, 3]
-            )
+            for k, h, p, sc, pto in itertools.product(KINDS, HEAVY, PROCS, core_schemes, [2, 3])
+            if not (k in XS_KINDS and sc not in ("ZM-VFNS", "FFNS3", "FFN03", "FONLL-FFNS4"))
         ]
-        s["S_tmc_pto0"] = [
-            _cell(k, h, p, canon[p], sc, 0, tmc, "central")
-            for k, h, p, sc, tmc in itertools.product(KINDS, HEAVY, PROCS, ["ZM-VFNS", "FFNS3", "FFN03"], [1, 2, 3])
+        s["S_tmc_pto01"] = [
+            _cell(k, h, p, canon[p], sc, pto, tmc, "central")
+            for k, h, p, sc, pto, tmc in itertools.product(KINDS, HEAVY, PROCS, ["ZM-VFNS", "FFNS3", "FFN03"], [0, 1], [1, 2, 3])
+            if not (pto == 1 and k in XS_KINDS and sc != "ZM-VFNS")
         ]
         s["S_nf_zm"] = [
             _cell(k, h, p, canon[p], "ZM-VFNS", pto, 0, kp)
@@ -145,7 +145,7 @@ def excluded(tier):
             * 7
             * 3
             * 4,
-            "quick tier: slices S_proj, S_kin and PTO>=1 of S_tmc, PTO 2,3 outside {ZM-VFNS,FFNS3,FFN03}x{light,total,charm}xSF kinds": 0,
+            "quick tier: slices S_proj, S_kin (except ZM-VFNS corners), PTO 2 of S_tmc, cross-section kinds at PTO 2,3 outside {ZM-VFNS,FFNS3,FFN03,FONLL-FFNS4}": 0,
         }
     return {}
 
